@@ -64,12 +64,12 @@ package plookup
 // The table variant. Acceptance-implies-check, written from the scheme and from the function's own comments: nil is
 // returned only if (folded-f-bound) the commitments of the rows of f, folded with the challenge, were compared with
 // the commitment f of the inner lookup proof and found equal; (folded-table-bound) the commitments of the rows of t,
-// folded the same way, were compared with something and found equal - the function's comment says "check that the
-// folded commitment of the ts is a permutation of proof.FoldedProof.t" -; (sub-proofs) the permutation proof and the
-// inner lookup proof both verified. Precondition: at least one row (the prover cannot produce an empty proof and the
-// type has no decoder). The second clause FAILS on the pinned tree: the folded commitment comt is computed and
-// never used (known finding F38, recorded in /verif/known-findings.json, not repaired: the commitments it would
-// have to be compared with are unexported fields of permutation.Proof).
+// folded the same way, were compared with a commitment and found equal, and so was the table t of the inner lookup
+// proof - "check that the folded commitment of the ts is a permutation of proof.FoldedProof.t" -; (sub-proofs) the
+// permutation proof and the inner lookup proof both verified. Precondition: at least one row (the prover cannot
+// produce an empty proof and the type has no decoder). The second clause failed on the pinned tree (finding F38:
+// the folded commitment was computed and never used; repaired). That the two commitments compared against are the
+// ones of the permutation proof is not stated (the accessor is an opaque call of another package).
 
 //@ func VerifyLookupTables
 //@ layer ring fr.Element bigint big.Int opaque bls12377.G1Affine bls12377.G2Affine bls12377.LineEvaluationAff
@@ -80,11 +80,13 @@ package plookup
 //@ requires len(proof.fs) >= 1
 //@ ghost fbound = false
 //@ ghost tbound = false
+//@ ghost t2bound = false
 //@ ghost permok = false
 //@ ghost innerok = false
 //@ cut after call Equal #*
 //@ + ghost fbound = fbound || (callresult && same(callarg0, comf) && same(callarg1, proof.foldedProof.f))
 //@ + ghost tbound = tbound || (callresult && (same(callarg0, comt) || same(callarg1, comt)))
+//@ + ghost t2bound = t2bound || (callresult && (same(callarg0, proof.foldedProof.t) || same(callarg1, proof.foldedProof.t)))
 //@ cut after call permutation.Verify #1
 //@ + ghost permok = isnil(callresult)
 //@ cut after call VerifyLookupVector #1
@@ -94,7 +96,7 @@ package plookup
 //@ loop 1
 //@ + invariant[fold] -1 <= i && i <= nbRows - 2
 //@ ensures[folded-f-bound] isnil(result) ==> fbound
-//@ ensures[folded-table-bound] isnil(result) ==> tbound
+//@ ensures[folded-table-bound] isnil(result) ==> tbound && t2bound
 //@ ensures[sub-proofs] isnil(result) ==> permok && innerok
 //@ modifies nothing
 //@ end
